@@ -1,6 +1,6 @@
 (* C05 — built transactions conserve value exactly.  Pinned statements only (proofs: Builder/*Proofs.v). *)
 From CSL Require Import Base.Prelude Base.U64 Num.Value Deposits.Deposits Builder.Totals Builder.TotalsProofs
-  Builder.Change Builder.ChangeProofs Builder.Scenario Builder.ScenarioProofs Builder.MoreEntry Builder.MoreEntryProofs Builder.TerminationProofs Builder.DirectionProofs.
+  Builder.Change Builder.ChangeProofs Builder.Scenario Builder.ScenarioProofs Builder.MoreEntry Builder.MoreEntryProofs Builder.TerminationProofs Builder.DirectionProofs Builder.TxReader Builder.TxReaderExamples.
 From CSL Require Collateral.Collateral.
 From Coq Require Import Permutation.
 Local Open Scope N_scope.
@@ -183,3 +183,10 @@ Check scenario_example.
 Check scenario_example_premises.
 Check scenario2_example.
 Check scenario2_example_premises.
+(* the judge's independent CBOR reader (Builder/TxReader.v) on a transaction built by the implementation, and on the wire forms of values, outputs, certificates and mint *)
+Check read_tx_example.
+Check judge_bytes_example.
+Check read_value_example.
+Check read_output_example.
+Check read_cert_example.
+Check read_mint_example.
